@@ -131,6 +131,26 @@ static void op_verify(int nt, char **t) {
     hfree(b); hfree(copy);
 }
 
+/* verifyseq <hex> <hex> ...: equally long frames written one after the other into the SAME block, each verified (and its FCS
+ * computed) in place: a receive buffer that is re-used; the answers must not depend on what was there before */
+static void op_verifyseq(int nt, char **t) {
+    size_t n0; unsigned char *first = hexbuf(t[1], &n0);
+    unsigned char *blk = __real_malloc(n0 + 1);
+    printf("verifyseq");
+    for (int i = 1; i < nt; i++) {
+        size_t n; unsigned char *b = i == 1 ? first : hexbuf(t[i], &n);
+        if (i == 1) n = n0;
+        if (n != n0) { printf(" LENGTH-MISMATCH"); if (i != 1) hfree(b); continue; }
+        memcpy(blk, b, n);
+        int r; uint32_t f = 0;
+        LIB(r = libwifi_frame_verify(blk, n));
+        if (n >= 4) LIB(f = libwifi_calculate_fcs(blk, n - 4));
+        printf(" %d/%08x", r, f);
+        if (i != 1) hfree(b);
+    }
+    hfree(first); __real_free(blk);
+}
+
 /* cap <shape> <name index> <a> <b> <c>: the capability macro as the real preprocessor and compiler see it */
 #define CAP_NAMES(X) X(CAPABILITIES_ESS) X(CAPABILITIES_IBSS) X(CAPABILITIES_POLL) X(CAPABILITIES_POLL_REQ) \
     X(CAPABILITIES_PRIVACY) X(CAPABILITIES_SHORT_PREAMBLE) X(CAPABILITIES_PBCC) X(CAPABILITIES_CHAN_AGILITY) \
@@ -180,6 +200,7 @@ const struct op ops_misc[] = {
     {"cap", op_cap},
     {"crc", op_crc},
     {"verify", op_verify},
+    {"verifyseq", op_verifyseq},
     {"tagname", op_tagname},
     {"tagname_range", op_tagname_range},
     {"enumcheck", op_enumcheck},
